@@ -13,6 +13,7 @@
       the count byte after each zero and skips two bytes; both loops advance.
   L8  entity lump text: write_ent_data escapes every str it writes inside quotes (multiline mode for values) and the reader
       tokenises with escapes enabled; outputs go through Output.as_keyvalue / Output.parse (C06 pair).
+  L3, L10, L11  field linkage, bit linkage of the split static-prop flags, string-pool search discipline: see rules/c11_link.py.
   L9  sentinel agreement: the physics-collide terminator record written (-1, ...) is the one the reader's loop exits on.
 """
 from __future__ import annotations
@@ -26,6 +27,7 @@ from engine.kvtext import conversion_of, emits_in, flatten as kv_flatten
 from engine.model import AnalysisError, Program, base_names, dotted, mro, walk_no_nested
 from engine.wire import Atom, Config, Extractor, atoms, by_tag, byte_size, expand, flatten, simplify, tags, value_count
 from rules.c10 import views_of
+from rules.c11_link import accessor_table, link_records, records, sig, split_field_check, string_pool_check
 
 LEVEL = 'other'
 
@@ -113,6 +115,9 @@ def run(ctx: Any, prog: Program) -> None:
     ctx.not_decided += ['value equality after find_or_insert re-indexing', 'float32 representability of values', 'which field each slot carries beyond arity (only checked where listed)']
     ctx.rule('C11.L1', 'reader and writer of each lump use the same struct slot sequence per layout configuration and per lump', floor=150)
     ctx.rule('C11.L2', 'unpack target count / pack argument count equals the number of value slots', floor=40)
+    ctx.rule('C11.L3', 'each slot carries the same record field (and vector component) for the reader and the writer', floor=200)
+    ctx.rule('C11.L10', 'static-prop flags: every flag bit the reader takes from the file is stored there by the writer, per StaticPropVersion', floor=12)
+    ctx.rule('C11.L11', 'de-duplicated string pools are searched for the terminated string and extended by exactly the searched bytes', floor=2)
     ctx.rule('C11.L4', 'static props: identical slot sequence for every StaticPropVersion, record size equals the declared size', floor=20)
     ctx.rule('C11.L5', 'isinstance chains test subclasses before their base classes', floor=1)
     ctx.rule('C11.L6', 'fixed-width string slots are length-checked before packing', floor=3)
@@ -151,6 +156,13 @@ def run(ctx: Any, prog: Program) -> None:
                     continue
                 ctx.check('C11.L1', ok, bsp, wr, f'view `{v}`, layout {cname}, lump {t}: the reader consumes `{rs}` but the writer produces `{ws}` ({how} comparison)',
                           func=f'BSP._lmp_write_{v}', text=f'{v} [{cname}] {t}')
+        # L3: field linkage under the standard configuration (records whose slot signature is unique on both sides)
+        if v != 'props':
+            vals, layout = BSP_CONFIGS['standard-v20']
+            ri = Extractor(bsp, fold, Config(dict(vals), layout), 'BSP', inline).extract(rd)
+            wi = Extractor(bsp, fold, Config(dict(vals), layout), 'BSP', inline).extract(wr)
+            rfns = [rd] + [inline[k] for k in inline if k in ast.unparse(rd)]
+            link_records(ctx, 'C11.L3', bsp, v, records(ri), records(wi), rfns, wr, f'BSP._lmp_write_{v}')
         # L2: arity (configuration independent: check against every variant the atom may use)
         for kind, fn in (('read', rd), ('write', wr)):
             items = Extractor(bsp, fold, Config({}, None), 'BSP', inline).extract(fn)
@@ -172,6 +184,7 @@ def run(ctx: Any, prog: Program) -> None:
     mprops = member_props_for(fold, bsp, 'StaticPropVersion')
     rd, wr = ms['_lmp_read_props'], ms['_lmp_write_props']
     seen_members = []
+    acc_table = accessor_table(bsp)
     for m in spv:
         if m in seen_members or m.name in ('UNKNOWN',):
             continue
@@ -180,8 +193,9 @@ def run(ctx: Any, prog: Program) -> None:
                 'vers_num': mprops['version'](m)}
         exr = Extractor(bsp, fold, Config(dict(vals), 'LUMP_LAYOUT_CHAOS' if 'CHAOS' in m.name else 'LUMP_LAYOUT_STANDARD'), 'BSP', inline, mprops)
         exw = Extractor(bsp, fold, Config(dict(vals), 'LUMP_LAYOUT_CHAOS' if 'CHAOS' in m.name else 'LUMP_LAYOUT_STANDARD'), 'BSP', inline, mprops)
-        rs = simplify(flatten(exr.extract(rd)))
-        ws = simplify(flatten(exw.extract(wr)))
+        exr_items, exw_items = exr.extract(rd), exw.extract(wr)
+        rs = simplify(flatten(exr_items))
+        ws = simplify(flatten(exw_items))
         ctx.check('C11.L4', rs == ws and '[' not in rs, bsp, wr, f'static props {m.name}: reader `{rs}` vs writer `{ws}`' + (' (undecided version gate)' if '[' in rs + ws else ''),
                   func='BSP._lmp_write_props', text=f'static props {m.name} slots')
         rec = groups(rs)[-1] if groups(rs) else ''
@@ -189,6 +203,13 @@ def run(ctx: Any, prog: Program) -> None:
         plain = re.sub(r's\d+;', '', rec).strip('()*')
         size += byte_size('<' + plain) if plain else 0
         want = mprops['size'](m)
+        rrecs, wrecs = records(exr_items), records(exw_items)
+        if rrecs and wrecs and sig(rrecs[-1]) == sig(wrecs[-1]):
+            link_records(ctx, 'C11.L3', bsp, f'props {m.name}', [rrecs[-1]], [wrecs[-1]], [rd], wr, 'BSP._lmp_write_props')
+            loops = [n for n in walk_no_nested(rd) if isinstance(n, ast.For) and any(isinstance(c, ast.Call) and dotted(c.func) == 'StaticProp' for c in ast.walk(n))]
+            if len(loops) != 1:
+                raise AnalysisError('_lmp_read_props: per-prop loop not found')
+            split_field_check(ctx, 'C11.L10', bsp, f'props {m.name}', exr, exw, rrecs[-1], wrecs[-1], loops[0].body, 'flags', 'flags', acc_table, wr)
         ctx.check('C11.L4', size == want, bsp, rd, f'static props {m.name}: the record read is {size} bytes but the version declares {want}', func='BSP._lmp_read_props', text=f'static props {m.name} size')
     # ---- L5 --------------------------------------------------------------------------------------------------
     n_chains = 0
@@ -244,6 +265,13 @@ def run(ctx: Any, prog: Program) -> None:
     tw = ms['_lmp_write_textures']
     ok = any(isinstance(g, ast.If) and 'len(tex) >= 128' in ast.unparse(g.test) and any(isinstance(x, ast.Raise) for x in g.body) for g in walk_no_nested(tw))
     ctx.check('C11.L6', ok, bsp, tw, 'texture names longer than the 128-byte table entry must be rejected', func='BSP._lmp_write_textures', text='texture name length check')
+    # ---- L11 -------------------------------------------------------------------------------------------------
+    n_pool = string_pool_check(ctx, 'C11.L11', bsp, tw, 'BSP._lmp_write_textures', b'\0')
+    if n_pool == 0:
+        raise AnalysisError('_lmp_write_textures: the string pool search/append pair was not found')
+    rt_ = ms['_lmp_read_textures']
+    ok = any(isinstance(c, ast.Call) and isinstance(c.func, ast.Attribute) and c.func.attr == 'index' and c.args and isinstance(c.args[0], ast.Constant) and c.args[0].value == b'\0' for c in walk_no_nested(rt_))
+    ctx.check('C11.L11', ok, bsp, rt_, 'the texture name reader cuts each name at the NUL terminator', func='BSP._lmp_read_textures', text='reader cuts at terminator')
     # ---- L7 --------------------------------------------------------------------------------------------------
     enc = bsp.func('runlength_encode')
     dec = bsp.func('runlength_decode')
@@ -292,6 +320,14 @@ def run(ctx: Any, prog: Program) -> None:
 
 
 MUTANTS = [
+    {'id': 'prop_fades_swapped', 'file': 'bsp.py', 'find': "                prop.min_fade,\n                prop.max_fade,\n", 'replace': "                prop.max_fade,\n                prop.min_fade,\n", 'expect': 'C11.L3'},
+    {'id': 'plane_normal_yx', 'file': 'bsp.py', 'find': "                plane.normal.x, plane.normal.y, plane.normal.z,\n                plane.dist,", 'replace': "                plane.normal.y, plane.normal.x, plane.normal.z,\n                plane.dist,", 'expect': 'C11.L3'},
+    {'id': 'node_area_from_plane', 'file': 'bsp.py', 'find': "                node.area_ind,", 'replace': "                node.plane.type.value,", 'expect': 'C11.L3'},
+    {'id': 'lightmap_flags_primary_only', 'file': 'bsp.py', 'find': "                    '<IHH',\n                    prop.flags.value,\n", 'replace': "                    '<IHH',\n                    prop.flags.value_prim,\n", 'expect': 'C11.L10'},
+    {'id': 'secondary_flags_shift', 'file': 'bsp.py', 'find': "                flags |= struct_read('<I', static_lump)[0] << 8", 'replace': "                flags |= struct_read('<I', static_lump)[0] << 16", 'expect': 'C11.L10'},
+    {'id': 'value_sec_shift_changed', 'file': 'bsp.py', 'find': "        return self.value >> 8", 'replace': "        return self.value >> 16", 'expect': 'C11.L10'},
+    {'id': 'pool_search_unterminated', 'file': 'bsp.py', 'find': "            ind = data.find(string)", 'replace': "            ind = data.find(string[:-1])", 'expect': 'C11.L11'},
+    {'id': 'pool_append_augassign', 'file': 'bsp.py', 'find': "                data.extend(string)", 'replace': "                data += string", 'expect': None, 'note': 'negative control: same bytes appended'},
     {'id': 'shape_after_sprite', 'file': 'bsp.py', 'find': "            elif isinstance(prop, DetailPropShape):", 'replace': "            elif isinstance(prop, DetailPropSprite) or isinstance(prop, DetailPropShape):", 'expect': None, 'note': 'unrecognised chain shape is not flagged', 'skip': True},
     {'id': 'model_len_check_removed', 'file': 'bsp.py', 'find': "            if len(name) > 128:\n                raise OverflowError(f'Static prop model", 'replace': "            if False:\n                raise OverflowError(f'Static prop model", 'expect': 'C11.L6'},
     {'id': 'ent_key_unescaped', 'file': 'bsp.py', 'find': "out.write(f'\"{escape_text(key)}\" ", 'replace': "out.write(f'\"{key}\" ", 'expect': 'C11.L8'},
